@@ -14,6 +14,12 @@ CLAIMED = {
  "C05": ("exploration", "bounded-exhaustive loop-header cube and interrupt cube + proptest loop programs against a reference interpreter",
          "Exhaustive cube over length x offset x limit x reversed x for/tablerow(cols) x collection kind, body printing every loop field; exhaustive break/continue placement in two nested loops; random larger programs. Oracle: reference interpreter.",
          "Reference interpreter trusted; negative offset/limit, interrupts inside tablerow and loops over scalars are outside the statement and not asserted.", "4.5"),
+ "C13": ("exploration", "bounded-exhaustive strings x arguments over a 10-symbol alphabet + proptest long strings and filter chains against independent reference implementations and algebraic laws",
+         "All strings of length <=3 (thorough <=4) over {a,B,space,LF,tab,comma,<,e-acute,combining mark,emoji} x all argument strings <=2 / integers in [-6,8] for the 26 string filters, compared with reference implementations over Vec<char>; laws split|join, strip=lstrip.rstrip, truncate bound, chain = left-to-right composition; random strings to 200 chars.",
+         "Reference implementations written from the filter documentation are trusted; truncate is accepted in either unit (chars or grapheme clusters); one known finding (truncate compares byte lengths) is listed in known_findings.json and excluded by exact signature.", "4.13"),
+ "C15": ("exploration", "bounded-exhaustive operand grid (integers, numeric strings, floats, every .5 tie) + proptest 64-bit operands against an exact i128 / IEEE-754 reference",
+         "Every pair of the 18-value boundary grid in three spellings for the 7 binary math filters, the grid for the unary ones, all k/8 ties for ceil/floor/round; random 64-bit and double operands. Oracle: exact i128 arithmetic / bit-identical f64 results computed in the harness; overflow must be Err or a float within 4 ulp.",
+         "Harness build has overflow checks on, so a wrapped result also shows as a panic; rounding of integers beyond 2^53 is not asserted.", "4.15"),
 }
 
 NOT_YET = {
